@@ -510,10 +510,33 @@ def run(p: Program, rep: Report, tier: str) -> None:
                     if not (isinstance(c.func, ast.Name) and c.func.id in sp and c.args):
                         continue
                     a0 = c.args[0]
-                    fresh = isinstance(a0, (ast.Dict, ast.DictComp)) or (isinstance(a0, ast.Call) and isinstance(a0.func, ast.Name) and a0.func.id == "dict")
+                    def _fresh_expr(x, f0=f_):
+                        if isinstance(x, (ast.Dict, ast.DictComp)) or (isinstance(x, ast.Call) and isinstance(x.func, ast.Name) and x.func.id == "dict"):
+                            return True
+                        if isinstance(x, ast.Call):  # a repository function / method every return of which is a dict built in that call
+                            try:
+                                r0 = p.resolve_call(f0, x)
+                            except Exception:
+                                r0 = None
+                            if not isinstance(r0, FuncInfo) and isinstance(x.func, ast.Attribute):
+                                cands0 = [m0 for c0 in p.module(f0.module.name).classes.values() for n0, m0 in dict.items(c0.methods) if n0 == x.func.attr]
+                                r0 = cands0[0] if len(cands0) == 1 else None
+                            if isinstance(r0, FuncInfo):
+                                rets0 = [n0 for n0 in ast.walk(r0.node) if isinstance(n0, ast.Return) and n0.value is not None]
+                                def _fresh_ret(v0):
+                                    if isinstance(v0, (ast.Dict, ast.DictComp)) or (isinstance(v0, ast.Call) and isinstance(v0.func, ast.Name) and v0.func.id == "dict"):
+                                        return True
+                                    if isinstance(v0, ast.Name):
+                                        ds0 = [n1.value for n1 in ast.walk(r0.node) if isinstance(n1, (ast.Assign, ast.AnnAssign)) and n1.value is not None
+                                               and any(isinstance(t1, ast.Name) and t1.id == v0.id for t1 in (n1.targets if isinstance(n1, ast.Assign) else [n1.target]))]
+                                        return bool(ds0) and all(isinstance(d1, (ast.Dict, ast.DictComp)) or (isinstance(d1, ast.Call) and isinstance(d1.func, ast.Name) and d1.func.id == "dict") for d1 in ds0)
+                                    return False
+                                return bool(rets0) and all(_fresh_ret(n0.value) for n0 in rets0)
+                        return False
+                    fresh = _fresh_expr(a0)
                     if isinstance(a0, ast.Name):
                         defs = [n for n in ast.walk(f_.node) if isinstance(n, (ast.Assign, ast.AnnAssign)) and any(isinstance(t, ast.Name) and t.id == a0.id for t in (n.targets if isinstance(n, ast.Assign) else [n.target])) and n.value is not None]
-                        fresh = bool(defs) and all(isinstance(d.value, (ast.Dict, ast.DictComp)) or (isinstance(d.value, ast.Call) and isinstance(d.value.func, ast.Name) and d.value.func.id == "dict") for d in defs)
+                        fresh = bool(defs) and all(_fresh_expr(d.value) for d in defs)
                     if fresh:
                         n_fresh += 1
                     else:
